@@ -433,6 +433,32 @@ let c14 op a =
        | None -> "(err)")
   | _ -> "(unknown-op " ^ op ^ ")"
 
+
+(* ---------- C07 (also the single-pass decoder of C01/C06/C08) ---------- *)
+let quota_of s = if s = "-" then None else Some (n_of_string s)
+let names_of (s : string) : n -> n option =
+  let l = List.map (fun p -> match p with L [i; x] -> (n_of_string (atom i), n_of_int (List.length (unhex (atom x)))) | _ -> failwith "names") (items (parse_sx s)) in
+  fun i -> (try Some (List.assoc i l) with Not_found -> None)
+let show_de qd qs r =
+  match r with
+  | ((d, s), Ok vs) ->
+      Printf.sprintf "(ok (%s) %s %s)" (String.concat " " (List.map sx_of_val vs))
+        (match qd with None -> "-" | Some _ -> string_of_n d) (match qs with None -> "-" | Some _ -> string_of_n s)
+  | (_, Err EQuota) -> "(quota)"
+  | (_, Err _) -> "(err)"
+  | (_, Panic) -> "(panic)"
+  | (_, OutOfFuel) -> "(skip)"
+let zero = n_of_int 0
+let c07 op a =
+  match op, a with
+  | "c07.decode", [e; ts; nm; h; qd; qs] ->
+      let qd = quota_of qd and qs = quota_of qs in
+      show_de qd qs (de_message (max_type_table_len) (env_of e) (names_of nm) (tys_of ts) (unhex h) (qd, qs) (zero, zero))
+  | "c07.decode_untyped", [h; qd; qs] ->
+      let qd = quota_of qd and qs = quota_of qs in
+      show_de qd qs (de_message_untyped (max_type_table_len) (unhex h) (qd, qs) (zero, zero))
+  | _ -> "(unknown-op " ^ op ^ ")"
+
 let dispatch (op : string) (a : string list) : string =
   let base = if String.length op > 2 && String.sub op 0 2 = "m." then String.sub op 2 (String.length op - 2) else op in
   let prop = try String.sub base 0 (String.index base '.') with Not_found -> base in
@@ -440,6 +466,7 @@ let dispatch (op : string) (a : string list) : string =
   | "c02" -> c02 op a
   | "c03" | "c04" | "c10" -> c03 op a
   | "c05" -> c05 op a
+  | "c07" -> c07 op a
   | "c09" -> c09 op a
   | "c11" -> c11 op a
   | "c13" | "c14" -> c14 op a
